@@ -45,7 +45,8 @@ CONSTANTS U,          \* scale of the numeric literals
           ImageFree,  \* TRUE: the last block is as free as any other; FALSE: a bare plane
           Noise, MaxNoise,  \* lines with unknown keywords, and how many may be interleaved
           Catalogue,  \* environment: set of <<catalogue, glass name>>
-          Export      \* TRUE: print every complete file with the prescription it denotes
+          Export,     \* TRUE: print complete files with the prescription they denote
+          ExportMod   \* print those whose checksum is 0 modulo this (1 = all)
 
 INF == 1073741824                 \* stands for +infinity (DISZ INFINITY, plane radius)
 ANY == "any"                      \* unobservable (vertex of the only surface of a 1-surface file)
@@ -171,9 +172,15 @@ UNKNOWN == /\ g.noise < MaxNoise
            /\ \E l \in Noise : Emit(l, [g EXCEPT !.noise = @ + 1])
 \* compact forms for export: a line as <<keyword, strings, numbers>>
 FileOf(ls) == [i \in 1..Len(ls) |-> <<ls[i].kw, ls[i].s, ls[i].a>>]
+\* a cheap checksum of the text, to export a fixed pseudo-random subset of a large grid
+RECURSIVE SumAbs(_)
+SumAbs(a) == IF a = <<>> THEN 0 ELSE (((IF a[1] < 0 THEN -a[1] ELSE a[1]) % 1009) + SumAbs(Tail(a))) % 1009
+RECURSIVE Checksum(_, _)
+Checksum(ls, i) == IF i > Len(ls) THEN 0
+                   ELSE (((i * (SumAbs(ls[i].a) + Len(ls[i].s) + 1)) % 1009) + (31 * Checksum(ls, i + 1))) % 1009
 End == /\ ~done /\ BlockClosed /\ g.n = g.target
        /\ done' = TRUE /\ out' = Finish(rd) /\ UNCHANGED <<lines, rd, g>>
-       /\ (Export => PrintT("FILE " \o ToString(<<FileOf(lines), Finish(rd)>>)))
+       /\ (Export /\ (Checksum(lines, 1) % ExportMod) = 0 => PrintT("FILE " \o ToString(<<FileOf(lines), Finish(rd)>>)))
 
 Next == \/ MODE \/ ENPD \/ FNUM \/ OBNA \/ GCAT \/ FTYP \/ PickField \/ XFLN \/ YFLN \/ PWAV \/ WAVM
         \/ SURF \/ STOP \/ TYPE \/ CURV \/ PARM \/ DISZ \/ GLAS \/ CONI \/ UNKNOWN \/ End
